@@ -31,6 +31,27 @@ class Ob:
         return d
 
 
+_INLINED = {}
+INLINE_MODE = [False]     # second-chance mode: functions are analysed with their pure single-site temporaries read through
+
+
+def _method_hook(f):
+    if not INLINE_MODE[0]:
+        return f
+    key = id(f)
+    if key not in _INLINED:
+        from . import util
+        g = util.inline_pure_temps(f)
+        for a_ in ('cy_kind', '_class', '_module', 'cy_cdef'):
+            if hasattr(f, a_) and not hasattr(g, a_):
+                setattr(g, a_, getattr(f, a_))
+        _INLINED[key] = g
+    return _INLINED[key]
+
+
+front.METHOD_HOOK = _method_hook
+
+
 class Ctx:
     """Passed to every rule module; collects obligations."""
 
@@ -57,10 +78,17 @@ class Ctx:
     def note(self, text):
         self.notes.append(text)
 
-    def fn(self, spec):
+    def fn(self, spec, raw=False):
         f = self.prog.func(spec)
         self.functions.add(spec)
-        return f
+        if raw or not INLINE_MODE[0]:
+            return f
+        # single-site pure temporaries are read through (util.inline_pure_temps): naming a sub-expression is not a change
+        key = id(f)
+        if key not in _INLINED:
+            from . import util
+            _INLINED[key] = util.inline_pure_temps(f)
+        return _INLINED[key]
 
     def loc(self, modname, node):
         return self.prog.where(modname, node)
@@ -102,8 +130,8 @@ class SubCtx:
     def loc(self, m, n):
         return self.ctx.loc(m, n)
 
-    def fn(self, spec):
-        return self.ctx.fn(spec)
+    def fn(self, spec, raw=False):
+        return self.ctx.fn(spec, raw=raw)
 
 
 def load_known():
@@ -122,20 +150,40 @@ def run_property(pid, tier='quick', replay=None, quiet=False):
     t0 = time.time()
     seed = int(os.environ.get('VERIF_SEED', '0') or 0)
     out = sys.stdout
-    try:
-        mod = importlib.import_module('bsverif.rules.%s' % pid.lower())
-        prog = front.Program()
-        ctx = Ctx(pid, tier, prog)
-        mod.check(ctx)
-        ctx.check_floors()
-        if not ctx.obs:
-            raise AnalysisError('no obligations generated')
-    except AnalysisError as e:
-        print('ANALYSIS-ERROR property=%s %s' % (pid, e))
-        return 2
-    except Exception as e:  # internal error: never a violation
-        print('ANALYSIS-ERROR property=%s internal: %r' % (pid, e))
-        traceback.print_exc(file=sys.stdout)
+    mod = importlib.import_module('bsverif.rules.%s' % pid.lower())
+    prog = front.Program()
+
+    def attempt(inline):
+        INLINE_MODE[0] = inline
+        try:
+            c = Ctx(pid, tier, prog)
+            mod.check(c)
+            c.check_floors()
+            if not c.obs:
+                raise AnalysisError('no obligations generated')
+            return c, None
+        except AnalysisError as e:
+            return None, 'ANALYSIS-ERROR property=%s %s' % (pid, e)
+        except Exception as e:  # internal error: never a violation
+            return None, 'ANALYSIS-ERROR property=%s internal: %r\n%s' % (pid, e, traceback.format_exc())
+        finally:
+            INLINE_MODE[0] = False
+    ctx, err = attempt(False)
+    if err is not None or any(not o.ok for o in ctx.obs):
+        # second chance on a semantics-preserving normal form (util.inline_pure_temps): an obligation discharged on either form holds;
+        # an analysis that only succeeds on the normal form is used as it is
+        ctx2, err2 = attempt(True)
+        if ctx is None and ctx2 is not None:
+            ctx, err = ctx2, None
+            ctx.notes.append('analysed on the normal form with single-site pure temporaries read through')
+        elif ctx is not None and ctx2 is not None:
+            good = {(o.rule, o.key) for o in ctx2.obs if o.ok}
+            for o in ctx.obs:
+                if not o.ok and (o.rule, o.key) in good:
+                    o.ok = True
+                    o.detail = 'discharged on the normal form with single-site pure temporaries read through'
+    if err is not None:
+        print(err)
         return 2
 
     known, fixed = load_known()
